@@ -15,5 +15,5 @@ CONSTANTS
   FixDropBound = TRUE
   FixDeriveGuards = TRUE
   FixLateTrack = TRUE
-  FixDeleteOnAccept = FALSE
+  FixDeleteOnAccept = TRUE
 INVARIANTS Pred TypeOK
